@@ -86,6 +86,10 @@ def edits(q):
                 yield f"nest-tuple#{i}"
                 n.args[0] = ast.UnaryOp(ast.USub(), a0)
                 yield f"nest-neg#{i}"
+                n.args[0] = ast.Call(ast.Name("MetaData", ast.Load()), [a0, ast.Dict([], [])], [])
+                yield f"nest-empty-metadata#{i}"
+                n.args[0] = ast.Call(ast.Name("MetaData", ast.Load()), [a0, ast.Dict([ast.Constant("k")], [ast.Constant(1)])], [])
+                yield f"nest-metadata#{i}"
                 n.args[0] = a0
                 n.args.append(copy.deepcopy(a0))
                 yield f"extra-arg#{i}"
@@ -155,6 +159,8 @@ class C20(Check):
                   (lambda hi=hi: qspaces.enumerate_sources("pkg", 3, hi + 1, ("e",))), runner="run_q"),
             Space("fluent", {"generator": "chains K<=2 x 8 bodies x 3 supply modes x 3 layouts"}, _fluent_cases,
                   runner="run_fluent"),
+            Space("captured-constants", {"values": "equal-but-differently-typed constants, rebinding between uses of one function object"},
+                  list(range(len(CAPTURE_MENU))), runner="run_capture"),
             Space("processes", {"processes": 3, "PYTHONHASHSEED": "1, 2, random"}, [("proc", 0)], runner="run_proc"),
         ]
 
@@ -294,6 +300,38 @@ class C20(Check):
                 res["viol"].append({"kind": "supply-mode-changes-hash", "canon": f"{case}|{k}", "msg": str(k)})
         return res
 
+    # ------------------------------------------------------------------ captured constants (also as two-query histories)
+    def run_capture(self, k):
+        from func_adl import EventDataset
+
+        class DS(EventDataset):
+            async def execute_result_async(self, a, title=None):
+                return a
+
+        res = {"n": 0, "nt": [f"capture|{k}"], "oc": ["capture"], "tags": {}, "viol": []}
+        values = CAPTURE_MENU[k]
+        _MODN[0] += 1
+        fn = f"<c20cap{_MODN[0]}>"
+        text = ("V = None\ndef by_name(e): return e.f(V)\ndef named(ds):\n    return ds.Select(by_name)\n"
+                "def inline(ds):\n    return ds.Select(\n        lambda e: e.f(V)\n    )\n")
+        linecache.cache[fn] = (len(text), None, text.splitlines(True), fn)
+        g = {}
+        exec(compile(text, fn, "exec"), g)
+        for how in ("inline", "named"):
+            for v in values:  # the same function object is used again after V was rebound
+                g["V"] = v
+                a = g[how](DS()).query_ast
+                t = DS().Select(f"lambda e: e.f({v!r})").query_ast
+                res["n"] += 1
+                if skey(a) != skey(t) or _hash(a) != _hash(t):
+                    res["viol"].append({"kind": "callable-built-query-hashes-differently-from-its-text-form",
+                                        "canon": f"capture|{how}|{values!r}|{v!r}",
+                                        "msg": f"{how}: captured {v!r} gave {ast.unparse(a.args[1])} vs text {ast.unparse(t.args[1])}"})
+        return res
+
+    def pair_menu(self, tier):
+        return [("capture", "run_capture", k) for k in range(len(CAPTURE_MENU))]
+
     # ------------------------------------------------------------------ separate processes
     def run_proc(self, _):
         res = {"n": 0, "nt": [], "oc": ["proc"], "tags": {}, "viol": []}
@@ -316,6 +354,9 @@ class C20(Check):
                     break
         res["nt"] = [f"proc|{s}" for s in srcs[:50]]
         return res
+
+
+CAPTURE_MENU = [(30,), (30.0,), (True,), (1,), (1.0,), ("a",), (10, 20), (2, 2.0), (0, False, 0.0)]
 
 
 def _seeds():
